@@ -143,12 +143,13 @@ def check(case, ctx) -> Result:
     for t in case["timers"]:
         req = []   # (t_request, delta, engine time the alarm was booked for)
         for e in resp["trace"]:
-            if e[0] == "us" and e[3] == t["id"] and len(e) > 5:
-                for op in e[5]:
-                    if op[0] == "s" and str(op[1]).startswith("wall"):
-                        q = op[-1]
-                        booked = q[3].get(op[3], [False, -1])[1] if isinstance(q, list) and len(q) > 3 else -1
-                        req.append((e[4], op[2], booked))
+            ops_ = e[5] if (e[0] == "us" and e[3] == t["id"] and len(e) > 5) else \
+                (e[7].get("sq") or []) if (e[0] == "ev" and e[3] == t["id"] and len(e) > 7 and isinstance(e[7], dict)) else []
+            for op in ops_:       # requests made during start and during evaluations alike
+                if op[0] == "s" and str(op[1]).startswith("wall"):
+                    q = op[-1]
+                    booked = q[3].get(op[3], [False, -1])[1] if isinstance(q, list) and len(q) > 3 else -1
+                    req.append((e[4], op[2], booked))
         my = [e[4] for e in evals if e[3] == t["id"]]
         for (tr_, d, due) in req:
             if d <= 0:
